@@ -10,16 +10,15 @@ import (
 // diff. Comments and strings are preserved byte-for-byte.
 //
 // Rules:
-//  1. Line endings are normalized to LF.
+//  1. CRLF line endings are normalized to LF. A lone CR is plain whitespace to
+//     the lexer (never a line end), so it is left where it is unless it trails.
 //  2. Trailing whitespace is stripped from every line.
 //  3. Indentation is exactly 2 spaces per bracket depth ({, [, ( open; ), ], }
 //     close). A line whose first character is a closer indents at depth-1.
 //  4. At most one consecutive blank line; leading blank lines are removed.
 //  5. The file ends with exactly one newline (an empty file stays empty).
 func CanonicalizeSource(source string) string {
-	source = strings.TrimPrefix(source, "\ufeff") // strip UTF-8 BOM; the lexer rejects it
 	source = strings.ReplaceAll(source, "\r\n", "\n")
-	source = strings.ReplaceAll(source, "\r", "\n")
 
 	lines := strings.Split(source, "\n")
 	var out []string
@@ -28,6 +27,13 @@ func CanonicalizeSource(source string) string {
 
 	for _, line := range lines {
 		trimmed := strings.TrimSpace(line)
+
+		// Strip UTF-8 BOMs from whatever becomes the start of the output (the
+		// lexer rejects them), so that the result never begins with one and
+		// formatting twice gives the same text as formatting once.
+		for len(out) == 0 && strings.HasPrefix(trimmed, "\ufeff") {
+			trimmed = strings.TrimSpace(strings.TrimPrefix(trimmed, "\ufeff"))
+		}
 
 		if trimmed == "" {
 			blankRun++
